@@ -92,8 +92,16 @@ func runCase(c *Case) *Result {
 			if c.RPT > 0 {
 				runner.SetRegionsPerTask(c.RPT)
 			}
-			err = runner.RunOnRange(ctx, unhx(c.S), unhx(c.E))
+			pctx, cancel := context.WithCancel(ctx)
+			w.mu.Lock()
+			w.cancel = cancel
+			w.mu.Unlock()
+			err = runner.RunOnRange(pctx, unhx(c.S), unhx(c.E))
+			cancel()
 			res.Done = runner.CompletedRegions()
+			w.mu.Lock()
+			w.faults = nil // the retry pass below runs without faults
+			w.mu.Unlock()
 		}
 		if err != nil {
 			res.Err = err.Error()
@@ -161,13 +169,13 @@ func runCase(c *Case) *Result {
 			}
 		}
 		// second pass on the same store / lock resolver (status cache) / Runner object, after more leftovers were written
-		if runner != nil && len(c.Script2) > 0 && res.Err == "" {
+		if runner != nil && (len(c.Script2) > 0 || c.SP2 > 0) && (res.Err == "" || len(c.Faults) > 0) {
 			res2 := &Result{Case: *c, Layout0: w.layout()}
 			res2.Case.ID += 100000
 			res2.Case.Class = "pass2"
 			res2.Case.SP, res2.Case.SP2 = c.SP2, 0
 			res2.Case.Script = append(append([]Op{}, c.Script...), c.Script2...)
-			res2.Case.Script2, res2.Case.Inj, res2.Case.PdInj, res2.Case.ReadTS = nil, nil, nil, nil
+			res2.Case.Script2, res2.Case.Inj, res2.Case.PdInj, res2.Case.ReadTS, res2.Case.Faults = nil, nil, nil, nil, nil
 			res.next = res2
 			if err := w.runScript(c.Script2); err != nil {
 				res2.SetupErr = err.Error()
